@@ -1,6 +1,7 @@
 package main
 
 import (
+	"math/big"
 	"reflect"
 
 	"github.com/zenon-network/go-zenon/chain/nom"
@@ -9,8 +10,9 @@ import (
 
 // ---------------------------------------------------------------------------------------------------
 // variants stream, generic part (C13): the fields of nom.AccountBlock / nom.Momentum that are NOT covered by the
-// hash are found by experiment on the live types (perturb one exported field of a copy, recompute the hash: an
-// unchanged hash = an uncovered field — the same set the facts generator f_hashfields.go derives from the AST), and
+// hash are found by experiment on the live types (perturb one exported field of a copy, recompute the hash WITH THE
+// HARNESS'S OWN PRE-IMAGE, ownABHash / ownMomentumHash - not with the repository's ComputeHash, which is only compared
+// with it: an unchanged hash = an uncovered field — the same set the facts generator f_hashfields.go derives from the AST), and
 // every such field gets the whole family of alterations of its type: byte strings are extended (one byte, many
 // bytes, doubled, padded to 65/96/128), truncated (by one, to half, to 32, to nothing), prefixed, rotated, bit-flipped,
 // zeroed; integers are moved to honest+1 / honest-1 / +k / -k / half / 0 / 1 / max / the honest value of another block; hashes are randomised / zeroed / bit-flipped. The property's
@@ -25,6 +27,29 @@ func isByteArray(v reflect.Value) bool {
 	return v.Kind() == reflect.Array && v.Type().Elem().Kind() == reflect.Uint8
 }
 
+func isBigInt(v reflect.Value) bool { return v.Type() == bigIntPtrType }
+
+// fieldByPath: "A" or "A.B" (a field of a nested struct value, e.g. MomentumAcknowledged.Height, Nonce.Data)
+func fieldByPath(v reflect.Value, path string) reflect.Value {
+	for {
+		name, rest := path, ""
+		for i := 0; i < len(path); i++ {
+			if path[i] == '.' {
+				name, rest = path[:i], path[i+1:]
+				break
+			}
+		}
+		if v.Kind() != reflect.Struct {
+			return reflect.Value{}
+		}
+		v = v.FieldByName(name)
+		if !v.IsValid() || rest == "" {
+			return v
+		}
+		path = rest
+	}
+}
+
 // perturbField: a minimal change of the field's value; false = this kind of field is not handled here
 func perturbField(v reflect.Value) bool {
 	switch {
@@ -34,6 +59,12 @@ func perturbField(v reflect.Value) bool {
 		v.SetBytes(append(append([]byte{}, v.Bytes()...), 0x5a))
 	case isByteArray(v) && v.Len() > 0:
 		v.Index(0).SetUint(v.Index(0).Uint() ^ 1)
+	case isBigInt(v):
+		old := new(big.Int)
+		if !v.IsNil() {
+			old.Set(v.Interface().(*big.Int))
+		}
+		v.Set(reflect.ValueOf(old.Add(old, big.NewInt(1))))
 	default:
 		return false
 	}
@@ -149,6 +180,9 @@ func noteUintDonors(obj interface{}, fields []string) {
 }
 var hashMutNames = []string{"random", "zero", "bitflip"}
 
+// amounts (only fields the hash covers have this type)
+var bigMutNames = []string{"plus-1", "minus-1", "zero", "doubled", "two-255", "plus-two-64"}
+
 // fieldMutNames: the alterations available for a field of this type
 func fieldMutNames(v reflect.Value) []string {
 	switch {
@@ -162,17 +196,44 @@ func fieldMutNames(v reflect.Value) []string {
 		return out
 	case isByteArray(v):
 		return hashMutNames
+	case isBigInt(v):
+		return bigMutNames
 	}
 	return nil
 }
 
 // applyFieldMut alters field `field` of *obj; false = not applicable to the current value (or no change)
 func applyFieldMut(c *Ctx, obj interface{}, field, mut string) bool {
-	v := reflect.ValueOf(obj).Elem().FieldByName(field)
+	v := fieldByPath(reflect.ValueOf(obj).Elem(), field)
 	if !v.IsValid() {
 		return false
 	}
 	switch {
+	case isBigInt(v):
+		old := new(big.Int)
+		if !v.IsNil() {
+			old.Set(v.Interface().(*big.Int))
+		}
+		nv := new(big.Int).Set(old)
+		switch mut {
+		case "plus-1":
+			nv.Add(nv, big.NewInt(1))
+		case "minus-1":
+			if old.Sign() <= 0 {
+				return false
+			}
+			nv.Sub(nv, big.NewInt(1))
+		case "zero":
+			nv.SetInt64(0)
+		case "doubled":
+			nv.Lsh(nv, 1)
+		case "two-255":
+			nv.Lsh(big.NewInt(1), 255)
+		case "plus-two-64":
+			nv.Add(nv, new(big.Int).Lsh(big.NewInt(1), 64))
+		}
+		v.Set(reflect.ValueOf(nv))
+		return nv.Cmp(old) != 0
 	case v.Kind() == reflect.Uint64:
 		old := v.Uint()
 		nv := old
@@ -250,19 +311,23 @@ func (fv fieldVariant) name() string { return fv.field + ":" + fv.mut }
 func fieldVariantsOf(sample interface{}, uncovered []string) []fieldVariant {
 	var out []fieldVariant
 	for _, f := range uncovered {
-		for _, m := range fieldMutNames(reflect.ValueOf(sample).Elem().FieldByName(f)) {
+		for _, m := range fieldMutNames(fieldByPath(reflect.ValueOf(sample).Elem(), f)) {
 			out = append(out, fieldVariant{f, m})
 		}
 	}
 	return out
 }
 
+// The hash oracle of the whole variants stream is the harness's OWN pre-image (ownABHash / ownMomentumHash in
+// s_variants_covered.go: the field list of the property's statement hashed with the harness's own SHA3 calls), not the
+// repository's ComputeHash: "uncovered" = what the statement's pre-image does not cover. The repository's ComputeHash is
+// only ever COMPARED with it (hashOraclesAgree, once per history).
 func abUncoveredFields(b *nom.AccountBlock) []string {
-	return uncoveredFieldsOf(func() interface{} { return cloneBlock(b) }, func(o interface{}) types.Hash { return o.(*nom.AccountBlock).ComputeHash() })
+	return uncoveredFieldsOf(func() interface{} { return cloneBlock(b) }, func(o interface{}) types.Hash { return ownABHash(o.(*nom.AccountBlock)) })
 }
 
 func momentumUncoveredFields(m *nom.Momentum) []string {
-	return uncoveredFieldsOf(func() interface{} { return cloneMomentum(m) }, func(o interface{}) types.Hash { return o.(*nom.Momentum).ComputeHash() })
+	return uncoveredFieldsOf(func() interface{} { return cloneMomentum(m) }, func(o interface{}) types.Hash { return ownMomentumHash(o.(*nom.Momentum)) })
 }
 
 // wire round trips: what a peer can actually deliver is the decoding of a message (the receiver rebuilds every cache,
